@@ -47,6 +47,7 @@ def run(rep, tier):
     _run(rep, tier)
     rule_i386_dispatch(rep)
     rule_x86_rounds(rep, tier)
+    rule_i386_rounds(rep, tier)
 
 
 def _run(rep, tier):
@@ -498,6 +499,146 @@ def rule_x86_rounds(rep, tier):
                               config=b.cfg.name)
             else:
                 rep.instance(rid, 1, {"round": r, "label": table[r]})
+        except Unsupported as e:
+            rep.unproved_item(rid, "round %d: %s" % (r, e))
+    rep.floor_discharged(rid, 12)
+
+
+# ---------------------------------------------------------------------------
+def rule_i386_rounds(rep, tier):
+    """D5i: the i386 ascon_permute computes the specification's rounds.  The
+    state is held bit-interleaved (the layout of the 32-bit C helpers that this
+    back end shares with BACKEND_C32); what a memory image stands for is defined
+    by those helpers: ascon_extract_bytes of the C32 configuration, interpreted
+    over the same bit polynomials (its own correctness is C08.D2).  Decided:
+    (a) epilogue(prologue(M)) = M for every memory image M, and the saved
+    registers / stack pointer are restored; (b) for every round r:
+    decode(epilogue(block_r(prologue(M)))) = round_r(decode(M)) as polynomials
+    in the 320 state bits, with every register outside the carried state
+    removed before the block runs; (c) prologue(epilogue(R)) = R for a symbolic
+    carried state R (five registers + five stack slots), so the blocks compose."""
+    from . import asm_anf, affine, modes
+    from .affine import Unsupported, const_bits, Ptr
+    from .rules_c08 import spec_round, bytes_to_words, words_to_bytes
+    rid = "C18.D5i"
+    rep.rule(rid, "i386 ascon_permute: every round block is the specification's round on the bit-interleaved state (polynomial identity)")
+    rel = "src/core/ascon-asm-i386.S"
+    path = os.path.join(repo.REPO, rel)
+    p = repo.run(["clang", "-E", "-m32", "-U__CYGWIN32__", "-U_WIN32", "-I", os.path.join(repo.REPO, "src"),
+                  "-I", os.path.join(repo.REPO, "src", "core"), "-x", "assembler-with-cpp", path])
+    af = asm_x86.AsmFile(p.stdout.decode(errors="replace"), path)
+    fn = af.funcs.get("ascon_permute")
+    if fn is None:
+        rep.broken.append("%s: ascon_permute not found in the preprocessed i386 assembly" % rid)
+        return
+    labs = {}
+    for lab in fn.labels:
+        mm = re.fullmatch(r"\.L(\d+)", lab)
+        if mm:
+            labs[int(mm.group(1))] = lab
+    if sorted(labs) != list(range(13)):
+        rep.unproved_item(rid, "round labels .L0 .. .L12 not all present (see C18.D4i)")
+        return
+    cmp_idx = next((i.idx for i in fn.insns if i.op == "cmpl"), None)
+    # decoder: the C32 configuration's ascon_extract_bytes
+    b = repo.configure(repo.Config("c32"))
+    lr = repo.lower(b, group="lib", level="O0", langs=("c",))
+    m = modes.load_module(lr.json)
+
+    def cell(off):
+        # 4 little-endian bytes of the object "S" at byte offset off -> 32 bit polynomials
+        return tuple(affine.atom_bit(("S", off + k // 8, k % 8)) for k in range(32))
+
+    def decode(cells):
+        """cells: offset -> 32 polys; -> 320 canonical bits (big-endian bytes as extract_bytes delivers them)"""
+        mc = affine.Machine(m)
+        st = mc.new_obj("S", 40, symbolic=False)
+        for off, v in cells.items():
+            mc.store(Ptr("S", off), tuple(v))
+        out = mc.new_obj("out", 40, symbolic=False)
+        mc.call("ascon_extract_bytes", [st, out, const_bits(0, 32), const_bits(40, 32)])
+        return list(mc.load(out, 40))
+    saved = {r: asm_anf.sym_word("saved_" + r)[:32] for r in ("rbx", "rbp", "rsi", "rdi")}
+
+    def entry(cells, first_round=0):
+        mc = asm_anf.Machine(fn, w=32)
+        mc.regs = dict(saved)
+        mc.regs["rsp"] = asm_anf.PtrVal("stack", 0)
+        mc.written = set(mc.regs)
+        mc.mem[("stack", 4)] = asm_anf.PtrVal("state", 0)
+        mc.mem[("stack", 8)] = const_bits(first_round, 32)
+        for off, v in cells.items():
+            mc.mem[("state", off)] = tuple(v)
+        return mc
+    M = {4 * k: cell(4 * k) for k in range(10)}
+    atoms = set(("S", k, j) for k in range(40) for j in range(8))
+
+    def dep(v):
+        return not isinstance(v, asm_anf.PtrVal) and any(a in atoms for bit in v for mono in bit for a in mono)
+    try:
+        p0 = entry(M)
+        p0.run(0, stop_idx=cmp_idx)
+        sregs = sorted(r for r, v in p0.regs.items() if dep(v))
+        sslots = sorted(k for k, v in p0.mem.items() if k[0] == "stack" and dep(v))
+        if len(sregs) + len(sslots) != 10:
+            rep.unproved_item(rid, "the prologue leaves the state in %d registers and %d stack slots" % (len(sregs), len(sslots)))
+            return
+        rep.instance(rid, 1, {"carried_registers": sregs, "carried_stack_slots": [k[1] for k in sslots]})
+
+        def carried_machine(src):
+            mc = asm_anf.Machine(fn, w=32)
+            mc.regs = {r: src.regs[r] for r in sregs + ["rsp"]}
+            mc.written = set(mc.regs)
+            mc.mem = {k: v for k, v in src.mem.items() if k[0] == "stack"}
+            return mc
+        # (a)
+        ep = carried_machine(p0)
+        okc = ep.run(fn.labels[labs[12]]) == "ret" and all(ep.mem.get(("state", off)) == M[off] for off in M) and \
+            ep.regs.get("rsp") == asm_anf.PtrVal("stack", 0) and all(ep.regs.get(r) == saved[r] for r in saved)
+        if not okc:
+            rep.violation(rid, "ascon_permute:epilogue", path, "the i386 epilogue does not store back what the prologue loaded, or does "
+                          "not restore %ebx/%ebp/%esi/%edi/%esp")
+        else:
+            rep.instance(rid, 1, {"epilogue": "inverse of the prologue, saved registers restored"})
+        # (c) prologue(epilogue(R)) = R
+        R = carried_machine(p0)
+        for r in sregs:
+            R.regs[r] = asm_anf.sym_word("R_" + r)[:32]
+        for k in sslots:
+            R.mem[k] = asm_anf.sym_word("R_%d" % k[1])[:32]
+        want_regs = {r: R.regs[r] for r in sregs}
+        want_mem = {k: R.mem[k] for k in sslots}
+        if R.run(fn.labels[labs[12]]) != "ret":
+            raise Unsupported("epilogue did not return")
+        back = entry({off: R.mem[("state", off)] for off in M})
+        back.run(0, stop_idx=cmp_idx)
+        if any(back.regs.get(r) != want_regs[r] for r in sregs) or any(back.mem.get(k) != want_mem[k] for k in sslots):
+            rep.violation(rid, "ascon_permute:carried-state", path, "prologue(epilogue(R)) differs from R: the round blocks do not compose")
+        else:
+            rep.instance(rid, 1, {"carried_state": "prologue and epilogue are mutually inverse"})
+        before = bytes_to_words(decode(M))
+    except Unsupported as e:
+        rep.unproved_item(rid, "prologue / epilogue not interpretable: %s" % e)
+        return
+    for r in range(12):
+        try:
+            mc = carried_machine(p0)
+            nxt = labs[r + 1]
+            got = mc.run(fn.labels[labs[r]], stop_labels={nxt})
+            if got != nxt:
+                rep.violation(rid, "ascon_permute:round%d:flow" % r, path, "round block %d does not fall through to %s" % (r, nxt))
+                continue
+            if mc.run(fn.labels[labs[12]]) != "ret":
+                raise Unsupported("epilogue did not return")
+            after = decode({off: mc.mem[("state", off)] for off in M})
+            want = words_to_bytes(spec_round(before, r))
+            diff = [k for k in range(320) if after[k] != want[k]]
+            if diff:
+                rep.violation(rid, "ascon_permute:round%d" % r, path,
+                              "round block %d (label %s) of the i386 ascon_permute is not the specification's round %d: %d of 320 decoded "
+                              "state bits differ as polynomials (first in word %d)" % (r, labs[r], r, len(diff), diff[0] // 64))
+            else:
+                rep.instance(rid, 1, {"round": r})
         except Unsupported as e:
             rep.unproved_item(rid, "round %d: %s" % (r, e))
     rep.floor_discharged(rid, 12)
